@@ -359,6 +359,11 @@ impl<H: Host> ZXController<H> {
         }
     }
 
+    /// Removes 128K paging lock. Used when whole machine state is replaced (snapshot loading)
+    pub fn unlock_paging(&mut self) {
+        self.paging_enabled = self.machine == ZXMachine::Sinclair128K;
+    }
+
     pub fn read_7ffd(&self) -> u8 {
         self.current_port_7ffd
     }
